@@ -114,6 +114,22 @@ CLAIMS = {
             "percent-decoded. Name-space disjointness per directory FAILS today for suitably named "
             "delegated roles (recorded finding D9, one key per directory/mode).",
             "DESIGN.md §4 C16"),
+    "C07": ("MIR dominance / loop-shape / value-origin analysis of Targets::find_target, the PathSet / "
+            "PathPattern / PathHashPrefix matchers, Targets::validate and its call sites",
+            "Decides on every path that a delegate is searched only under the true edge of its own "
+            "paths.matches_target_name(name), after the own entries, by forward iteration (first hit "
+            "wins); that matching looks at the resolved name and returns true only from a matcher; that "
+            "load_targets / the editor's sign succeed only through validate(), which resolves every "
+            "listed target from the top after delegations were attached. Glob semantics not decided.",
+            "DESIGN.md §4 C07"),
+    "C14": ("control-dependence (post-dominators) + flow-sensitive value-origin analysis of load_root "
+            "step 1.9; skip-edge analysis of the three loaders",
+            "Decides that the stored timestamp and snapshot are both removed, with errors propagated, "
+            "exactly under whole-list (in)equality tests of Root::keys(root before the walk, R) against "
+            "Root::keys(root after it, R) for R in {Timestamp, Snapshot}, and that a stored document that "
+            "no longer verifies is skipped rather than compared. Per-cycle structure; cross-cycle "
+            "baseline is the recorded finding D7 (C03).",
+            "DESIGN.md §4 C14"),
 }
 
 NOT_YET = {}
